@@ -662,7 +662,10 @@ def rule_V(ctx):
                 decode((2, 2), [e0, e1], trans, logmode, 'ordering of the sequence costs: ' + orders.describe(o) + (' (likelihoods above 1)' if K < 0 else ''), 'orderings')
         # (b) every sequence of a three-epoch model in turn the unique optimum; epoch sizes include 1 and 3; transition and
         #     observation tables differ from epoch to epoch
-        for sizes in ((2, 2, 2), (1, 2, 3), (3, 1, 2), (2, 3, 1), (1, 1, 1), (3,), (1,)):
+        shapes = [(2, 2, 2), (1, 2, 3), (3, 1, 2), (2, 3, 1), (1, 1, 1), (3,), (1,)]
+        if ctx.tier == 'thorough':
+            shapes += [(2, 2, 2, 2), (3, 3, 3), (2, 3, 2, 3), (4, 2), (2, 4), (1, 4, 1), (3, 2, 3, 2, 1)]
+        for sizes in shapes:
             T_ = len(sizes)
             for target in itertools.product(*[range(s_) for s_ in sizes]):
                 for good, bad_ in ((0.1, 2.3), (-1.5, 0.4)):
